@@ -349,6 +349,8 @@ class PFlow(BaseRoutine):
             Convergence status
         """
 
+        from scipy.optimize import NoConvergence
+
         system = self.system
         v0 = system.dae.xy
 
@@ -356,6 +358,10 @@ class PFlow(BaseRoutine):
             ret = newton_krylov(self._fg_wrapper, v0, verbose=verbose)
             self._set_xy(ret)
             self.converged = True
+
+        except NoConvergence:
+            logger.error('Newton-Krylov iterations did not converge.')
+            self.converged = False
 
         except ValueError as e:
             logger.error('Mismatch is not correctable. Equations may be unsolvable.')
